@@ -1228,7 +1228,7 @@ pub fn run(args: &Args) -> i32 {
         return check.finish();
     }
     let t = check.tier;
-    check.section("layouts-caches", hist_strategy, t.pick(3000, 90_000), hist_case);
-    check.section("perturbations", pert_strategy, t.pick(8000, 240_000), pert_case);
+    check.section("layouts-caches", hist_strategy, t.pick(2000, 60_000), hist_case);
+    check.section("perturbations", pert_strategy, t.pick(6000, 180_000), pert_case);
     check.finish()
 }
